@@ -37,13 +37,108 @@ entry `none`; the consuming theorem then fails.
 """
 from __future__ import annotations
 
+import datetime as _dt
+import time as _time
+import types as _types
 from fractions import Fraction
 from pathlib import Path
+
+
+# ----------------------------------------------------------------------------------------------------------------
+# clocks: every clock a loop module can reach BY NAME (datetime.now / utcnow / today, time.time / monotonic /
+# perf_counter and their _ns forms, time.sleep) is replaced by one deterministic clock that ticks at every read
+# and that the scripted callbacks move ("a slow step").  Used by the extractor and by harness/vf/props/c18.py.
+# ----------------------------------------------------------------------------------------------------------------
+class TickClock:
+    BASE = _dt.datetime(2030, 1, 1, tzinfo=_dt.timezone.utc)
+
+    def __init__(self, tick_us=1000):
+        self.us, self.tick, self.reads, self.sleeps = 0, tick_us, 0, []
+
+    def advance(self, us):
+        self.us += int(us)
+
+    def read(self):
+        self.us += self.tick
+        self.reads += 1
+        return self.us
+
+
+def _fake_datetime(clock):
+    class FakeDT(_dt.datetime):
+        @classmethod
+        def now(cls, tz=None):
+            d = TickClock.BASE + _dt.timedelta(microseconds=clock.read())
+            return d.astimezone(tz) if tz is not None else d.replace(tzinfo=None)
+
+        @classmethod
+        def utcnow(cls):
+            return cls.now(_dt.timezone.utc).replace(tzinfo=None)
+
+        @classmethod
+        def today(cls):
+            return cls.now()
+    return FakeDT
+
+
+class _Proxy:
+    """a module look-alike: the names in `over` are answered from there, everything else by the real module"""
+    def __init__(self, real, over):
+        self.__dict__["_real"], self.__dict__["_over"] = real, over
+
+    def __getattr__(self, k):
+        o = self.__dict__["_over"]
+        return o[k] if k in o else getattr(self.__dict__["_real"], k)
+
+
+def _time_fakes(clock):
+    def sleep(s):
+        clock.sleeps.append(s)
+        try:
+            clock.advance(max(0.0, float(s)) * 1e6)
+        except Exception:   # noqa
+            pass
+    tf = {"time": lambda: 1.9e9 + clock.read() / 1e6, "monotonic": lambda: clock.read() / 1e6,
+          "perf_counter": lambda: clock.read() / 1e6, "time_ns": lambda: 1900000000000000000 + clock.read() * 1000,
+          "monotonic_ns": lambda: clock.read() * 1000, "perf_counter_ns": lambda: clock.read() * 1000, "sleep": sleep}
+    for k, f in tf.items():
+        f._fake_clock_name = k        # a from-imported clock that is already a fake is recognised by this tag
+    return tf
+
+
+def install_clock(mod, clock):
+    """replace the clocks module `mod` holds by name; returns what `restore_clock` needs"""
+    saved = {}
+    fdt, tf = _fake_datetime(clock), _time_fakes(clock)
+    real_time = {getattr(_time, k): k for k in tf}
+    for name, val in list(vars(mod).items()):
+        new = None
+        if val is _dt.datetime or (isinstance(val, type) and issubclass(val, _dt.datetime) and val.__name__ == "FakeDT"):
+            new = fdt
+        elif val is _dt or (isinstance(val, _Proxy) and val.__dict__["_real"] is _dt):
+            new = _Proxy(_dt, {"datetime": fdt})
+        elif val is _time or (isinstance(val, _Proxy) and val.__dict__["_real"] is _time):
+            new = _Proxy(_time, tf)
+        elif isinstance(val, _types.BuiltinFunctionType) and val in real_time:
+            new = tf[real_time[val]]
+        elif getattr(val, "_fake_clock_name", None) in tf:
+            new = tf[val._fake_clock_name]
+        if new is not None:
+            saved[name] = val
+            setattr(mod, name, new)
+    return saved
+
+
+def restore_clock(mod, saved):
+    for name, val in saved.items():
+        setattr(mod, name, val)
 
 LIMS = [-2, -1, 0, 1, 2, 3, 4, 5, 8, 17, 33]      # small budgets densely, a few large ones (a bound that only gives way past a threshold)
 SLIMS = [-2, -1, 0, 1, 2, 3]
 SBIG = [(8, 1), (1, 8), (17, 2), (2, 17), (33, 0), (0, 33)]
 CAPN = 40
+TIMEOUTS = [_dt.timedelta(0), _dt.timedelta(microseconds=1), _dt.timedelta(seconds=1), _dt.timedelta(seconds=-1),
+            _dt.timedelta.max, _dt.timedelta(hours=1)]
 
 MARKER_PROBES = [
     "", " ", "ok", "SUCCESS", "success", "SuCcEsS", "SOLVED", "solved", "COMPLETE", "complete", "DONE", "done",
@@ -176,11 +271,14 @@ def heal_point(cl, schema, n):
 def _swarm_run(rs, sw, outputs=None):
     """run supervise on `sw` with fresh counting callbacks; returns (steps per spawn, result)"""
     spawns = []
+    clock = TickClock()          # 1 ms at every read; every second step of a worker takes 2 s more
 
     class W(_lib()["WorkerBase"]):
         def step(self, task):
             k = spawns[-1]
             spawns[-1] = k + 1
+            if k % 2 == 0:
+                clock.advance(2_000_000)
             if k > CAPN:
                 raise _Stop()
             if outputs is not None:
@@ -194,10 +292,13 @@ def _swarm_run(rs, sw, outputs=None):
         return W(name)
     sw.worker_factory = fac
     sw.summarizer = lambda mem: []
+    saved = install_clock(rs, clock)
     try:
         res = sw.supervise("t")
     except _Stop:
         return spawns, None
+    finally:
+        restore_clock(rs, saved)
     return spawns, res
 
 
@@ -227,6 +328,14 @@ def swarm_point(rs, mreg, ms):
         sw.max_regenerations, sw.max_steps_per_worker = mreg, ms
         routes.append(obs(sw))
         routes.append(obs(sw))
+        # timing: `step_timeout` zero / tiny / one second (only the slow steps overrun it) / negative / the largest
+        # timedelta, at construction and assigned later, against steps that take 1 ms resp. 2 s by every clock the
+        # module can name - the budgets are the same
+        if "step_timeout" in getattr(rs.RegenerativeSwarm, "__dataclass_fields__", {}):
+            for to in TIMEOUTS:
+                routes.append(obs(_mk_swarm(rs, max_regenerations=mreg, max_steps_per_worker=ms, step_timeout=to)))
+            sw.step_timeout = TIMEOUTS[0]
+            routes.append(obs(sw))
         if mreg < 0:                      # no worker: the step budget is not observable
             routes = [(r[0], 0) if r is not None else None for r in routes]
         return routes[0] if len(set(routes)) == 1 and routes[0] is not None else None
